@@ -11,7 +11,7 @@ one() {
   if ! (cd $s && patch -p1 -s < $d/patch.diff); then echo "$name DOES-NOT-APPLY"; rm -rf $s; return; fi
   bad=""; und=""
   for p in $props; do
-    /verif/bin/rtcheck -property $p -tier quick -repo $s -no-evidence > $s/.out 2>&1; r=$?
+    ${RTCHECK:-/verif/bin/rtcheck} -property $p -tier quick -repo $s -verif /verif -no-evidence > $s/.out 2>&1; r=$?
     if [ $r -eq 1 ]; then bad="$bad $p:$(grep -o 'FAILED R[0-9.]*/[^ ]*' $s/.out | head -2 | sed 's/FAILED //' | tr '\n' ',')";
     elif [ $r -ne 0 ] && grep -q "^UNDECIDED property=" $s/.out; then und="$und $p:$(grep -o 'UNRECOGNISED R[0-9.]*/[^ ]*' $s/.out | head -2 | sed 's/UNRECOGNISED //' | tr '\n' ',')";
     elif [ $r -ne 0 ]; then bad="$bad $p:TOOL-ERROR($(tail -1 $s/.out | cut -c1-120))"; fi
